@@ -21,6 +21,57 @@ CLAIMED = {
         "completion orders; the outcome must be a member of the outcome set computed by a small "
         "reference interpreter transcribed from the documented reduction rules.",
         SIM_NOTE + " The reference interpreter is part of the trusted base.", "DESIGN.md §4 C01"),
+    "C02": (
+        "histsim", "exploration",
+        "deterministic simulation: seeded edit/revert histories over one backend, each execution "
+        "under its own seeded schedule, differential oracle against an empty backend",
+        "Histories of up to 6 executions with value-changing edits, version bumps, neutral edits, "
+        "reverts, raise toggles and argument changes between executions, on fresh or reused "
+        "Scheduler objects; every execution must equal the same program version run on an empty "
+        "backend (value or error type).",
+        SIM_NOTE, "DESIGN.md §4 C02"),
+    "C03": (
+        "histsim", "fault_enumeration",
+        "deterministic simulation with fault injection: crash at every commit index / transient "
+        "SQL errors during recording, recovery, code edit, shallow-cached run; also after record "
+        "transfer to a second repository",
+        "Per workload every commit of the recording execution is a crash point (complete in the "
+        "thorough tier, evenly thinned in quick), plus sampled transient OperationalErrors; after "
+        "recovery one task is edited and the shallow-cached execution must equal the edited "
+        "program on an empty backend, on the same repository and on one that pulled the records; "
+        "subtree-task rows must be closed under the recorded call edges.",
+        SIM_NOTE + " Crash = loss of the uncommitted transaction (SQLite atomic commit trusted).",
+        "DESIGN.md §4 C03"),
+    "C07": (
+        "schedsim", "exploration",
+        "deterministic simulation: the same program under several seeded schedules and limit "
+        "configurations, equality of outcome and recorded call-graph hashes across variants",
+        "Each program (generic, and handle-passing with limited tasks) is executed on fresh "
+        "backends under 3-4 (schedule, limits) variants from unlimited to fully serial; outcome, "
+        "call-node hashes, argument hashes and handle hashes must coincide.",
+        SIM_NOTE, "DESIGN.md §4 C07"),
+    "C20": (
+        "schedsim", "exploration",
+        "deterministic simulation: seeded schedules, then a whole-database audit against the "
+        "harness's own record of the job tree (independent Merkle recomputation)",
+        "After each of 1-2 executions (failures, duplicates, cached replays, apply_tags, prov=False "
+        "subtrees) every settled job's Job/CallNode/CallEdge rows are compared with the job tree "
+        "the harness observed, call hashes are recomputed with an independent bencode+sha512, "
+        "every Value row is deserialized and rehashed, subvalue links and tags are checked, and "
+        "PRAGMA foreign_key_check must be empty.",
+        SIM_NOTE + " ErrorValue rows are not rehashed (pickled tracebacks).", "DESIGN.md §4 C20"),
+    "C22": (
+        "histsim", "fault_enumeration",
+        "deterministic simulation with fault injection: process death before every commit and "
+        "transient OperationalError at sampled statements, recovery runs of the same / an edited "
+        "program, referential audit and record conservation",
+        "Per workload every commit index of the recording execution is used as a crash point "
+        "(complete in thorough, thinned in quick) and sampled statement indices get 1-3 "
+        "consecutive OperationalErrors; afterwards references must resolve, the recovery "
+        "execution must equal a run on an empty backend, and a retried run must leave the same "
+        "records as the fault-free run of the same schedule.",
+        SIM_NOTE + " Crash = loss of the uncommitted transaction (SQLite atomic commit trusted).",
+        "DESIGN.md §4 C22"),
     "C06": (
         "schedsim", "exploration",
         "deterministic simulation: seeded completion-order search on the real scheduler, "
